@@ -9,5 +9,6 @@ import Refine.Model.NodeIds
 import Refine.Model.CellStore
 import Refine.Lemmas.ScalarReal
 import Refine.Lemmas.NodeIds
+import Refine.Lemmas.CellStore
 import Refine.Props.C15
 import Refine.Props.C14NodeCell
